@@ -440,7 +440,9 @@ func run(cfg Config, main func()) (*Result, chan struct{}) {
 				res.Horizon = true
 				return res, mainDone
 			}
+			raceEnable() // (stdlib first-use synchronisation inside an ignore bracket would show up as an artefact report)
 			tm := time.NewTimer(remaining)
+			raceDisable()
 			select {
 			case r := <-s.parkCh:
 				tm.Stop()
